@@ -164,6 +164,18 @@ def run_parity(ctx: Ctx) -> RuleResult:
         res.ob('%s %s' % (glc.loc(), glc.qual), 'the guard defaults to visiting tokens (plain objects without the flag) and skips otherwise', ok)
         if not ok:
             res.finding(glc, g0, 'the __visit_tokens__ guard of the embedded path does not default to True / does not skip', construct='embedded:guard')
+    # every terminal with a method of its name gets the callback: no other filter in the loop
+    lps = [n for n in glc.body_nodes() if isinstance(n, ast.For)]
+    ok = len(lps) == 1
+    if ok:
+        lp = lps[0]
+        conts = [x for x in ast.walk(lp) if isinstance(x, (ast.Continue, ast.Break))]
+        ifs = [x for x in ast.walk(lp) if isinstance(x, ast.If)]
+        ok = not conts and len(ifs) == 1 and norm(ifs[0].test) in ('callback is not None', 'callback') and norm(lp.iter) == 'terminals'
+    res.ob('%s %s' % (glc.loc(), glc.qual), 'a token callback is installed for every terminal that has a method of its name (no other filter)', ok)
+    if not ok:
+        res.finding(glc, glc.node, 'the embedded path filters which terminals get their callback (a post-hoc transform calls the method for '
+                                   'every token of that type that is in the tree, e.g. _TERMINALS kept by !rules)', construct='embedded:terminal-filter')
     ft = repo.func('lark.parsers.lalr_parser_state:ParserState.feed_token')
     body = ' '.join(norm(s) for s in ft.body_nodes() if isinstance(s, ast.Expr))
     ok = any('callbacks[token.type](token)' in norm(n) and 'token.type not in callbacks' in norm(n) for n in ft.body_nodes()
